@@ -86,6 +86,11 @@ CHECKS["C13"] = dict(
     note="Bounds: corpora of <= 3-4 tokens / characters / edges per call, matrices 2 x 2 (3 x 2 thorough). Writes-nothing-it-reads is the inductive step that extends to histories of any length. Not covered here: LabelledTreeCooccurrenceVectorizer, Histogram / KDE / Distribution / SlidingWindow / CountFeatureCompression, the random_state clause and the temporary-file clause of the optimal-transport classes (listed as uncovered in the evidence).",
     ref="4/C13")
 
+CHECKS["C07"] = dict(
+    text="Bounded symbolic model checking of the repository's code around the network simplex: the real transport_plan and get_transport_plan run on pynndescent's real allocate_graph_structures, initialize_supply, initialize_cost and arc_id (source loaded from the installed package), with the pivoting loop replaced by its contract (some feasible optimal flow for the supplies, arcs and costs it was handed: fresh reals constrained by conservation, node potentials, complementary slackness). For symbolic p, q >= 0 summing to one (zeros allowed) and a symbolic non-negative cost of every shape within the bound the returned plan is non-negative, has row sums p and column sums q, and is optimal for the user's cost (dual certificate: u_i + v_j <= cost_ij with equality where plan_ij > 0) - which holds iff the arc <-> cell mapping, supply signs and cost placement are the bijection the code assumes. chunked_pairwise_distance writes every cell of its np.empty buffer exactly once with dist(data1[i], data2[j]) for all row / column counts and chunk sizes; both cost-orientation branches of the internal LOT kernels hand transport_plan the normalised row distribution, the reference distribution and cost[i, j] = dist(row vector i, reference vector j).",
+    note="Bounds: n, m <= 3 quick (4 thorough), 1 x m and n x 1 included; chunked distance up to 4 x 4 with symbolic chunk size. Trusted: the optimality / termination of pynndescent's pivoting loop itself (contract stub) and float64 rounding (Real arithmetic) - the statement's 1e-9 / 1e-7 tolerances concern exactly that part. Replays: transport_plan against scipy's LP solver; the orientation cases under NUMBA_DISABLE_JIT=1 with the arguments of transport_plan recorded.",
+    ref="4/C07")
+
 NOT_YET = {}
 
 
